@@ -67,6 +67,7 @@ type Contract struct {
 	Clause  *ast.CaseClause // for clause units
 	IdxAsserts []*IdxAssert // `idxassert BASE LO HI`
 	Claims     []*Clause    // `claim[Cxx] TEXT`
+	Lit     *ast.FuncLit    // function-literal unit (FUNC/case lit N)
 	MapLoop bool            // map-range unit (maprange.go)
 	Frame   string          // frame unit T.f (frame.go)
 	ResVars []string
@@ -661,7 +662,32 @@ func (pk *Pkg) injectAndRecheck(w *World) error {
 		c.Decl = fd
 		pk.ByName[c.Name] = c
 		var body *[]ast.Stmt = &fd.Body.List
-		if label != "" {
+		resType := fd.Type
+		if strings.HasPrefix(label, "lit ") {
+			// FUNC/case lit N: the unit is the body of the N-th function literal of FUNC (source order). It runs like a
+			// clause unit - parameters of the literal and the variables it captures are arbitrary - and a `return`
+			// sets the literal's results.
+			n := -1
+			fmt.Sscan(strings.TrimPrefix(label, "lit "), &n)
+			var lit *ast.FuncLit
+			k := 0
+			ast.Inspect(fd.Body, func(x ast.Node) bool {
+				if fl, ok := x.(*ast.FuncLit); ok {
+					if k == n && lit == nil {
+						lit = fl
+					}
+					k++
+				}
+				return true
+			})
+			if lit == nil {
+				return fmt.Errorf("%s:%d: no function literal #%d in %s", c.File, c.Line, n, name)
+			}
+			c.Lit = lit
+			c.Clause = &ast.CaseClause{Body: lit.Body.List}
+			body = &lit.Body.List
+			resType = lit.Type
+		} else if label != "" {
 			cc := findClause(fd, label)
 			if cc == nil {
 				return fmt.Errorf("%s:%d: no case %q in %s", c.File, c.Line, label, name)
@@ -669,11 +695,14 @@ func (pk *Pkg) injectAndRecheck(w *World) error {
 			c.Clause = cc
 			body = &cc.Body
 		}
+		if c.Lit != nil {
+			defer func(c *Contract) { c.Clause.Body = c.Lit.Body.List }(c)
+		}
 		// result variables
 		var pre []ast.Stmt
-		if fd.Type.Results != nil {
+		if resType.Results != nil {
 			n := 0
-			for _, f := range fd.Type.Results.List {
+			for _, f := range resType.Results.List {
 				if len(f.Names) == 0 {
 					nm := "result"
 					if n > 0 {
@@ -785,7 +814,7 @@ func (pk *Pkg) injectAndRecheck(w *World) error {
 		pk.Injected[postBlk] = true
 		nb := append([]ast.Stmt{}, pre...)
 		nb = append(nb, blk)
-		if n := len(*body); n > 0 && label == "" && fd.Type.Results != nil && len(fd.Type.Results.List) > 0 {
+		if n := len(*body); n > 0 && (label == "" || c.Lit != nil) && resType.Results != nil && len(resType.Results.List) > 0 {
 			// keep the function's terminating statement last
 			nb = append(nb, (*body)[:n-1]...)
 			nb = append(nb, postBlk, (*body)[n-1])
